@@ -7,6 +7,9 @@ import FeatModel.Lemmas.C15FastL3b
 import FeatModel.Lemmas.C15FastL3c
 import FeatModel.Lemmas.C15FastL3d
 import FeatModel.Lemmas.C15RestH3
+import FeatModel.Lemmas.C15RestL3g
+import FeatModel.Lemmas.C15RestL3h
+import FeatModel.Lemmas.C15RestL3i
 /-! the 3-D hypercube tensor tables (Lagrange-2, Bernstein-2, Lagrange-3) through `tensor_table_correct` -/
 namespace FeatModel.FE
 open FeatModel.Poly FeatModel.Gen
@@ -37,6 +40,18 @@ theorem fast_l3 : fastSamplesOk BasisH1.l3 3 true true BasisH3.l3_idx BasisH3.l3
 theorem samples_l3 : BasisH3.l3.samplesOk = true :=
   tensor_table_correct BasisH1.l3 3 true true BasisH3.l3_idx BasisH3.l3_samples onevar_facts.2.1 fast_l3
 
+theorem hess_l3h3 : BasisH3.l3.hessOk = true := by
+  have hr : List.range BasisH3.l3.nloc = List.range' 0 32 ++ List.range' 32 32 := by decide
+  have ha := hess_l3h3_a
+  have hb := hess_l3h3_b
+  unfold hessOkPart at ha hb
+  unfold BasisTab.hessOk
+  rw [hr, List.all_append]
+  cases hh : BasisH3.l3.hasHess
+  · simp
+  · simp only [hh, Bool.not_true, Bool.false_or] at ha hb ⊢
+    rw [ha, hb]; rfl
+
 theorem tabs_keysH3 : keysH3.all okKey = true := by
   have r2 := rest_l2
   have rb := rest_b2
@@ -47,6 +62,9 @@ theorem tabs_keysH3 : keysH3.all okKey = true := by
   have kb : okKey (Fam.B2, Kind.H, 3) = true := by
     show (BasisH3.b2.shapeOk && BasisH3.b2.samplesOk && BasisH3.b2.gradOk && BasisH3.b2.hessOk) = true
     rw [rb.1.1, samples_b2, rb.1.2, rb.2]; rfl
-  simp only [keysH3, keysH3b, List.all_append, tabs_keysH3a, List.all_cons, List.all_nil, k2, kb, Bool.and_self]
+  have k3 : okKey (Fam.L3, Kind.H, 3) = true := by
+    show (BasisH3.l3.shapeOk && BasisH3.l3.samplesOk && BasisH3.l3.gradOk && BasisH3.l3.hessOk) = true
+    rw [shape_l3, samples_l3, grad_l3h3, hess_l3h3]; rfl
+  simp only [keysH3, keysH3b, List.all_append, tabs_keysH3a, List.all_cons, List.all_nil, k2, kb, k3, Bool.and_self]
 
 end FeatModel.FE
